@@ -10,6 +10,26 @@ CHECKS = {
    technique="exhaustive enumeration of the decoder's input trie (all byte strings ≤2/3 bytes, structural-alphabet strings ≤4/6 with sound pruning, single/double mutation closure of valid encodings) executed on the real decoder and compared with an independent strict reference decoder",
    text="Every input in the bounded space is executed on the real dagcbor decoder in strict and relaxed mode; accept/reject must equal an independent reference decoder written from the property text and accepted values must read back equal. Bounded-exhaustive: the defect classes named in the property (a flag consulted for one major type only, a head boundary, a duplicate after a nested child) all have witnesses of ≤4 items.",
    note="Trusted: the reference decoder mc/ref/refcbor.go; go-cid's cid.Cast for CID validity (used by both sides). Inputs longer than the stated bounds are reached only through the mutation closure of the value universe."),
+ "C02": dict(
+   category="model_checking", design_ref="DESIGN.md §5 C02",
+   technique="bounded-exhaustive enumeration of values × every permutation of map insertion order × node implementations, each encoded by the real encoder and compared byte-for-byte with an independent canonical encoder, then decoded by the real and by a reference decoder",
+   text="Every value of the bounded universe (all trees ≤4/5 nodes, every boundary scalar at every position, all permutations of key sets ≤4 incl. nested) is encoded by dagcbor in every implementation; bytes must equal the reference canonical encoding, EncodedLength must equal the byte count, and both decoders must return the value in canonical order.",
+   note="Trusted: reference encoder/decoder in mc/ref/refcbor.go. Values larger than the bound are represented only by head-boundary containers (23…65536 entries)."),
+ "C04": dict(
+   category="model_checking", design_ref="DESIGN.md §5 C04",
+   technique="bounded-exhaustive enumeration of in-domain values × all insertion orders × implementations; output checked by an independent DAG-JSON reader on the standard library tokenizer, by the real decoder, and for determinism",
+   text="Every in-domain value of the bounded universe is encoded with dagjson; the text must be readable by an independent reader (encoding/json tokens) as exactly the value with keys in bytewise order, must decode through the library to the same value and kinds, must be identical for every insertion order and implementation, and re-encode identically.",
+   note="Trusted: encoding/json tokenizer, cid.Decode, base64. Known finding (integral floats emitted as integers, defect in the refmt dependency) is listed in known_findings.json."),
+ "C05": dict(
+   category="model_checking", design_ref="DESIGN.md §5 C05",
+   technique="enumeration of values × codecs × link prototypes × implementations against hand-assembled CIDs, plus explicit-state search over store/compute/load histories on the real LinkSystem (state = stored set + last operation, to fixpoint) and all operation sequences to depth 3/4",
+   text="Store = ComputeLink = hand-assembled CID (sha2-256/512/identity by crypto/*; all 80+ registered hashers for self-consistency), independent of implementation and (DAG codecs) of insertion order; every load function returns the canonical value and raw bytes hashing to the link; every answer is the same in every explored history.",
+   note="Trusted: crypto/sha256, crypto/sha512, go-multihash for other hash functions. dag-json/json domain excludes integral floats (recorded under C04)."),
+ "C06": dict(
+   category="fault_enumeration", design_ref="DESIGN.md §5 C06", engine="fault",
+   technique="exhaustive single-fault enumeration on the storage seam: every bit flip, truncation, extension, substitution, read error offset and chunking of every block × 4 load functions; every failing Write call, accessor failure, opener and commit error on Store",
+   text="For each stored block every listed corruption/fault is injected through the real StorageReadOpener/WriteOpener seam; a non-error return must imply the served bytes hash to the link, mismatches must win over decode errors, I/O errors must surface, and Store must never commit after a failed write or encode.",
+   note="Trusted: the harness's recomputation of the hash of served bytes. A reader returning (0,nil) is checked for safety only, not availability."),
 }
 
 NOT_YET = "check not built yet in this round (planned in DESIGN.md §5; will be claimed when its explorer exists)"
@@ -43,7 +63,8 @@ def main():
             "add_only": True,
         },
         "engines": [
-            {"name": "enum", "path": "mc/core", "serves_properties": sorted(CHECKS), "kind_free_text": "odometer / trie enumeration of bounded input and program spaces executed on the real code, sharded over 16 cores"},
+            {"name": "enum", "path": "mc/core", "serves_properties": sorted(k for k,v in CHECKS.items() if v.get("engine","enum")=="enum"), "kind_free_text": "odometer / trie enumeration of bounded input and program spaces executed on the real code, sharded over 16 cores"},
+            {"name": "fault", "path": "mc/lsx", "serves_properties": sorted(k for k,v in CHECKS.items() if v.get("engine")=="fault"), "kind_free_text": "environment-answer enumerator: scripted storage reader/writer faults at every interaction of a recorded run"},
         ],
         "checks": checks,
         "not_applicable": na,
